@@ -52,9 +52,14 @@ func genOne(r *rand.Rand, types [][2]string, nfn int) *profile.Profile {
 	for i, u := range sub {
 		p.Function = append(p.Function, &profile.Function{ID: uint64(i + 1), Name: fmt.Sprintf("f%d", u), SystemName: fmt.Sprintf("f%d", u), Filename: "x.go"})
 	}
-	// one location per function plus one inlined pair
+	// one location per function plus one inlined pair; a quarter of the profiles come from another
+	// build installed at the same path: the same offsets hold other functions there
+	rot := 0
+	if r.Intn(4) == 0 {
+		rot = r.Intn(nfn)
+	}
 	for i, u := range sub {
-		p.Location = append(p.Location, &profile.Location{ID: uint64(i + 1), Mapping: m, Address: m.Start + uint64(u)*16, Line: []profile.Line{{Function: p.Function[i], Line: 1}}})
+		p.Location = append(p.Location, &profile.Location{ID: uint64(i + 1), Mapping: m, Address: m.Start + uint64((u+rot)%nfn)*16, Line: []profile.Line{{Function: p.Function[i], Line: 1}}})
 	}
 	if r.Intn(2) == 0 {
 		a, b := r.Intn(len(sub)), r.Intn(len(sub))
